@@ -692,7 +692,10 @@ def run_shard_for(fmt_name, prop, desc, acc, big_sizes=(20, 60)):
         # large models: 60-150 features with several injections (size/width/depth thresholds)
         for b in range(desc.get("large", 0)):
             r = rand.rng(seed, prop, "large", i, b)
-            base = inject.base(r, 60 if b % 2 == 0 else 130, (230 if b % 2 == 0 else 320) if fmt_name != "uvl" else 90)
+            if fmt_name == "uvl":      # (ANTLR parsing of the Python UVL grammar is slow: smaller "large" models)
+                base = inject.base(r, 60 if b % 2 == 0 else 90, 90 if b % 2 == 0 else 130)
+            else:
+                base = inject.base(r, 60 if b % 2 == 0 else 130, 230 if b % 2 == 0 else 320)
             if judge(fmt, base, desc["cycles"], work):
                 acc.fail("large-base", "same-model", fmt.name, [], "large-base-fails", "a 60-150 feature base fails",
                          {"fmt": fmt_name, "spec": base, "cycles": desc["cycles"], "tags": []}, S.digest(base))
